@@ -71,7 +71,7 @@ type Config struct {
 }
 
 func DefaultConfig() Config {
-	return Config{MaxPaths: 4000, MaxDepth: 14, QueryMs: 5000, FeasMs: 150, UnitSec: 400, MaxUnroll: 3, Safety: true, Z3: "z3-new", Z3Alt: "z3", WantModel: true, InlineAcross: true, AutoConcrete: 4}
+	return Config{MaxPaths: 4000, MaxDepth: 14, QueryMs: 10000, FeasMs: 150, UnitSec: 400, MaxUnroll: 3, Safety: true, Z3: "z3-new", Z3Alt: "z3", WantModel: true, InlineAcross: true, AutoConcrete: 4}
 }
 
 // Unit is the verification of one target function (or lemma).
@@ -529,7 +529,7 @@ func (u *Unit) check(st *State, name, kind string, goal *Term, text string) bool
 	var model map[string]string
 	if u.S.HasDeferred() && !strings.Contains(goal.S, "(forall ") {
 		// first without the quantified hypotheses
-		if rq := u.S.CheckGoalQF(goal, 800); rq == "unsat" {
+		if rq := u.S.CheckGoalQF(goal, 1200); rq == "unsat" {
 			if o.Solver == "" {
 				o.Solver = u.Cfg.Z3 + " (incremental)"
 			}
@@ -542,7 +542,7 @@ func (u *Unit) check(st *State, name, kind string, goal *Term, text string) bool
 		r = "unsat"
 		u.S.Push()
 		for _, cj := range goal.Conj {
-			rr, mm := u.S.CheckGoalT(cj, want, 1500)
+			rr, mm := u.S.CheckGoalT(cj, want, 2500)
 			if rr == "unknown" {
 				sc := u.S.Script(cj, "z3")
 				rr, _ = RunScript(u.Cfg.Z3, sc, time.Duration(u.Cfg.QueryMs)*time.Millisecond)
@@ -569,7 +569,7 @@ func (u *Unit) check(st *State, name, kind string, goal *Term, text string) bool
 		}
 		u.S.Pop()
 	} else {
-		r, model = u.S.CheckGoalT(goal, want, 1500)
+		r, model = u.S.CheckGoalT(goal, want, 2500)
 	}
 	if r == "unknown" && len(goal.Conj) <= 1 {
 		sc := u.S.Script(goal, "z3")
